@@ -63,11 +63,11 @@ def main():
     props = {json.loads(l)["id"]: json.loads(l) for l in open("/verif/properties.jsonl")}
     summary = []
     for pid in sorted(props):
-        for ab in ("A", "B", "C", "D", "E", "F", "G", "H", "I", "J", "K", "L", "M", "N", "P", "Q", "R", "S", "T", "U"):
+        for ab in ("A", "B", "C", "D", "E", "F", "G", "H", "I", "J", "K", "L", "M", "N", "P", "Q", "R", "S", "T", "U", "V", "W"):
             name = f"{pid}-{ab}"
             if only and name not in only and pid not in only:
                 continue
-            outdir = {"A": "out", "B": "out", "C": "out2", "D": "out2", "E": "out3", "F": "out3", "G": "out4", "H": "out4", "I": "out5", "J": "out5", "K": "out6", "L": "out6", "M": "out7", "N": "out7", "P": "out8", "Q": "out8", "R": "out9", "S": "out9", "T": "out10", "U": "out10"}[ab]
+            outdir = {"A": "out", "B": "out", "C": "out2", "D": "out2", "E": "out3", "F": "out3", "G": "out4", "H": "out4", "I": "out5", "J": "out5", "K": "out6", "L": "out6", "M": "out7", "N": "out7", "P": "out8", "Q": "out8", "R": "out9", "S": "out9", "T": "out10", "U": "out10", "V": "out11", "W": "out11"}[ab]
             outdir = f"{SEED}/{pid}-{outdir}"
             if os.path.isdir(os.path.join(OUT, name)) and name not in only:
                 continue
